@@ -12,7 +12,9 @@ Kinds == {"Local", "Public", "Secret", "PkePublic", "PkeSecret"}
 Rel == {"same", "other"}          \* the key's version: the operation's own, or another one
 
 \* operations whose only dimension is (key kind, key version)
-KeyOps == {"encrypt_with", "sign_with", "decrypt_with", "verify_with", "wrap_pie_with", "unwrap_pie_with"}
+KeyOps == {"encrypt_with", "sign_with", "decrypt_with", "verify_with", "wrap_pie_with", "unwrap_pie_with",
+           \* the generic entry points (UnsealedToken::seal / dangerous_seal_with_nonce, SealedToken::unseal), per purpose
+           "seal_public_with", "seal_local_with", "nonce_seal_public_with", "nonce_seal_local_with", "unseal_public_with", "unseal_local_with"}
 \* operations on a key of some kind (same version)
 UnaryOps == {"wrap_pie", "password_wrap", "public_key", "display", "debug", "expose_to_string", "from_bytes32", "random", "id",
              "clone", "private_field", "unseal_key_with", "seal_to"}
@@ -38,6 +40,9 @@ Permitted(p) ==
     [] p.op = "decrypt_with" -> p.k = "Local" /\ p.rel = "same"
     [] p.op = "sign_with" -> p.k = "Secret" /\ p.rel = "same"
     [] p.op = "verify_with" -> p.k = "Public" /\ p.rel = "same"
+    [] p.op \in {"seal_public_with", "nonce_seal_public_with"} -> p.k = "Secret" /\ p.rel = "same"
+    [] p.op \in {"seal_local_with", "nonce_seal_local_with", "unseal_local_with"} -> p.k = "Local" /\ p.rel = "same"
+    [] p.op = "unseal_public_with" -> p.k = "Public" /\ p.rel = "same"
     [] p.op = "wrap_pie_with" -> p.k = "Local" /\ p.rel = "same"        \* the wrapping key
     [] p.op = "unwrap_pie_with" -> p.k = "Local" /\ p.rel = "same"
     [] p.op = "wrap_pie" -> p.k \in {"Local", "Secret"}                  \* the key being wrapped: never a public key
